@@ -17,6 +17,10 @@ pub fn replay(lines: &[Value], rep: &mut Report) {
         let line = text_of(&c["line"]);
         let indomain = c["indomain"].as_bool().unwrap();
         rep.distinct.insert(hash_of(&(kind, line.clone())));
+        if kind == "gs1" {
+            gs1_case(c, &line, indomain, rep);
+            continue;
+        }
         // the three clients share the text grammar; the player line is the Quake 2 / 3 one
         let clients: &[&str] = if kind == "kv" { &["one", "two", "three"] } else { &["two", "three"] };
         for cl in clients {
@@ -88,5 +92,37 @@ pub fn replay(lines: &[Value], rep: &mut Report) {
             }
         }
         rep.sample(&json!({"kind": kind, "line": line, "indomain": indomain}));
+    }
+}
+
+
+/// the same fragment inside a GameSpy 1 reply, through the raw-variables query (C04)
+fn gs1_case(c: &Value, line: &str, indomain: bool, rep: &mut Report) {
+    let mut d = b"\\hostname\\h".to_vec();
+    d.extend(line.as_bytes());
+    d.extend(b"\\queryid\\5.1\\final\\");
+    let script = ScriptJ::udp(vec![vec![d]]);
+    let a = addr(27015);
+    let rec = run_call(&script, DEFAULT_MAX_OPS, || gamedig::protocols::gamespy::one::query_vars(&a, timeouts(0)));
+    rep.evaluations += 1;
+    let case = json!({"kind":"quaketext","case":c,"client":"gs1vars","script":script});
+    match &rec.outcome {
+        Outcome::Panic { msg } => return rep.violation("C01", &format!("gamespy 1 variables: panic {}", first_line(msg)), case),
+        Outcome::Hang => return rep.violation("C01", "gamespy 1 variables: does not return", case),
+        _ => {}
+    }
+    if !indomain {
+        return;
+    }
+    let Outcome::Ok(v) = &rec.outcome else {
+        return rep.violation("C04", &format!("gamespy 1 variables inside the grammar are rejected with {}", rec.outcome.class()), case);
+    };
+    let mut want = serde_json::Map::new();
+    want.insert("hostname".into(), json!("h"));
+    for p in c["expected"].as_array().unwrap() {
+        want.insert(text_of(&p[0]), json!(text_of(&p[1])));
+    }
+    if *v != Value::Object(want) {
+        rep.violation("C04", "gamespy 1 variables differ from the pairs sent", json!({"kind":"quaketext","case":c,"got":v}));
     }
 }
